@@ -78,6 +78,38 @@ def _workers(P, R):
             else:
                 R.hold("a", "no Facts data mutator is reachable from the spawned worker on the typed-core path (%d functions reachable)" % len(reach), fn=fn, line=c.line)
                 R.sample({"clause": "a", "worker": cls[0], "reachable_functions": len(reach), "facts_writers_in_crate": sorted(w.rsplit("::", 1)[1] for w in writers)})
+            # the shared results are published in ONE critical section per worker, and only by appending: two acquisitions on a
+            # path (test under one lock, store under another) or an overwrite through the guard lose another worker's results
+            for clname in cls:
+                cf = P.fns.get(clname)
+                if cf is None:
+                    continue
+                sites = [(lc, m, nm) for (lc, m, nm) in A.lock_sites(cf) if _lock_class(nm) == "results"]
+                if not sites:
+                    R.undecide("a", "results-publish:%s" % fn.name, "the worker never locks the shared results", cf)
+                    continue
+                ev = {}
+                for (lc, m, nm) in sites:
+                    ev.setdefault(lc.bb, []).append("lock")
+                sets, capped = A.path_event_sets(cf, ev)
+                worst = max([len(seq) for ss in sets.values() for seq in ss] or [0])
+                overwrite = []
+                for bb in sorted(cf.normal_blocks()):
+                    for st in cf.stmts(bb):
+                        if isinstance(st, list) and len(st) > 4 and st[2] == "=" and "*" in st[3][1]:
+                            base = fmt_sym(cf.sym_local(st[3][0]), maxdepth=8)
+                            if "deref_mut" in base and ("lock(" in base) and not any(isinstance(e, list) and e[0] == "f" for e in st[3][1]):
+                                overwrite.append(st[0])
+                trunc = [c2 for c2 in cf.calls() if c2.bb in cf.normal_blocks() and c2.name.rsplit("::", 1)[-1] in ("clear", "truncate", "pop", "remove", "swap_remove", "drain", "retain", "split_off", "insert")
+                         and c2.args and "lock(" in fmt_sym(cf.sym_operand(c2.args[0]), maxdepth=8) and "Vec" in c2.name]
+                if capped:
+                    R.undecide("a", "results-publish:%s" % fn.name, "path enumeration capped", cf)
+                elif worst > 1:
+                    R.violate("a", "results-publish:multiple-critical-sections", "a worker acquires the shared results mutex %d times on one path: a test made under one acquisition (is_empty) is stale by the next one, so two workers can both take the `first` branch and one overwrites the other's results" % worst, cf, sites[0][0].line)
+                elif overwrite or trunc:
+                    R.violate("a", "results-publish:not-append-only", "a worker replaces or shrinks the shared results vector (line %d) instead of appending to it" % (overwrite[0] if overwrite else trunc[0].line), cf)
+                else:
+                    R.hold("a", "each worker publishes its results in one critical section, by appending", fn=cf, line=sites[0][0].line)
             # the worker shares state only through Arc clones + the results mutex
             caps = [fmt_sym(a, maxdepth=3) for x in walk(fn.sym_operand(c.args[0])) if x[0] == "agg" and x[1].startswith("closure:") for a in x[2]]
             R.sample({"clause": "a", "captures": caps})
